@@ -292,7 +292,13 @@ func runProgram(p program, seed int64) {
 				if progSrc.after == "" {
 					progSrc.after = "data"
 				}
-				progSrc.fill = newRng(seed, "prog/bytes/"+strconv.Itoa(st.Fill)+"/"+strconv.Itoa(i))
+				if st.Fill >= 100 {
+					// a repeated stream: every call with this fill number is handed exactly the same bytes (a test
+					// fixture, a deterministic generator restarted from its seed, a recorded stream played again)
+					progSrc.fill = newRng(seed, "prog/bytes/"+strconv.Itoa(st.Fill))
+				} else {
+					progSrc.fill = newRng(seed, "prog/bytes/"+strconv.Itoa(st.Fill)+"/"+strconv.Itoa(i))
+				}
 			}
 			recNewMnemonic(st.N, st.Lang, Event{"argid": "new/" + strconv.FormatInt(st.N, 10) + "/" + strconv.FormatInt(st.Lang, 10)})
 			if observeMaps {
